@@ -40,6 +40,7 @@ def poll_to_completion(ex, M, co, max_polls):
             return polls, r
 
 
+@common.part
 def obligations(chk, prop, only_core=False):
     ix = events.CukeIdx(chk.prog)
     entry = _entry(chk, 'FailOnSkipped')
